@@ -39,7 +39,7 @@ Fixpoint step_range (cu : N) (step : N) (last : N) (fuel : nat) : list N :=
   | S k => if cu <=? last then cu :: step_range (cu + step) step last k else []
   end.
 
-Definition fold_interval (i : iv) (recv : cps) : cps :=
+Definition fold_interval_in (table : list (N * N * Z * N)) (i : iv) (recv : cps) : cps :=
   fold_left (fun acc fr =>
     if (fr_last fr <? fst i) || (snd i <? fr_first fr) then acc else
     let first_trans := N.max (fr_first fr) (fst i) in
@@ -54,20 +54,23 @@ Definition fold_interval (i : iv) (recv : cps) : cps :=
       let start_aligned := first_trans + ((modulo - (offset_start mod modulo)) mod modulo) in
       fold_left (fun a cu => cps_add_one a (add_delta cu))
                 (step_range start_aligned modulo last_trans (S (N.to_nat (last_trans - first_trans)))) acc)
-    FOLDS recv.
+    table recv.
 
-Definition unfold_interval (i : iv) (recv : cps) : cps :=
+Definition unfold_interval_in (table : list (N * N * Z * N)) (i : iv) (recv : cps) : cps :=
   fold_left (fun acc tr =>
     if negb (iv_overlaps i (fr_to_first tr, fr_to_last tr)) then acc else
     let modulo := fr_mask tr + 1 in
     fold_left (fun a cp => let tcp := fr_apply tr cp in
                            if negb (tcp =? cp) && iv_contains i tcp then cps_add_one a cp else a)
               (step_range (fr_first tr) modulo (fr_last tr) (fr_len tr)) acc)
-    FOLDS recv.
+    table recv.
 
-Definition add_icase_code_points (input : cps) : cps :=
-  let folded := fold_left (fun acc i => fold_interval i acc) input input in
-  fold_left (fun acc i => unfold_interval i acc) folded folded.
+(* add_icase_code_points_for: FOLDS in Unicode mode, TO_UPPERCASE in legacy mode *)
+Definition add_icase_code_points_for (input : cps) (unicode : bool) : cps :=
+  let table := if unicode then FOLDS else TO_UPPERCASE in
+  let folded := fold_left (fun acc i => fold_interval_in table i acc) input input in
+  fold_left (fun acc i => unfold_interval_in table i acc) folded folded.
+Definition add_icase_code_points (input : cps) : cps := add_icase_code_points_for input true.
 
 (* literal.rs *)
 Inductive piece := PChar (c : N) | PByteSequence (bs : list N) | PByteSet (bs : list N) | PCharSet (cs : list N).
